@@ -359,6 +359,10 @@ def herd_reference(h, c):
     return meat, milk
 
 
+def c_add_meat(lp):
+    return bool(lp["consts"].get("ADD_MEAT"))
+
+
 def mon_c05_c18(cap, key, rp, want):
     np = _P["np"]
     v5, v18 = [], []
@@ -392,6 +396,22 @@ def mon_c05_c18(cap, key, rp, want):
                 v5.append(violation("meat_total_matches_slaughter", k, "%s round %d: total meat offered %r, herd total %r" % (key["iso3"], ri + 1, got_meat.sum(), meat.sum()), rp))
             if abs(float(lp["consts"]["meat_summed_consumption"]) - meat.sum()) > 1e-6 * max(1.0, meat.sum()):
                 v5.append(violation("meat_total_matches_slaughter", dict(k, what="stock"), "%s round %d: meat stock %r, herd total %r" % (key["iso3"], ri + 1, float(lp["consts"]["meat_summed_consumption"]), meat.sum()), rp))
+            if lp["kind"] == "h" and lp.get("vals") and "meat_eaten" in lp["vals"] and c_add_meat(lp):
+                # what the programme actually lets people eat, judged against the herd simulation itself (not against the
+                # series handed over): month by month when nothing may be kept between months, cumulatively otherwise
+                d = lp.get("d") or reflp.inputs_of(lp["consts"], lp["tc"])
+                if d["mt"]:
+                    eat = np.asarray(lp["vals"]["meat_eaten"], dtype=float) * d["mt"]["g"]
+                    tolm = lambda x: 1e-5 * max(1.0, x) + 1e-6
+                    if d["store"]:
+                        ce, cs = np.cumsum(eat), np.cumsum(meat)
+                        bad = [m for m in range(N) if ce[m] > cs[m] + tolm(cs[m])]
+                        if bad:
+                            v5.append(violation("meat_eaten_within_herd_slaughter", k, "%s round %d: meat eaten by month %d is %r, the herds' slaughter so far yields %r" % (key["iso3"], ri + 1, bad[0], ce[bad[0]], cs[bad[0]]), rp))
+                    else:
+                        bad = [m for m in range(N) if eat[m] > meat[m] + tolm(meat[m])]
+                        if bad:
+                            v5.append(violation("meat_eaten_within_herd_slaughter", k, "%s round %d month %d: meat eaten %r, that month's slaughter yields %r (no storage between months)" % (key["iso3"], ri + 1, bad[0], eat[bad[0]], meat[bad[0]]), rp))
             bad = np.where(np.abs(got_milk - milk) > 1e-9 * max(1.0, float(np.abs(milk).max())))[0]
             if len(bad):
                 m = int(bad[0])
@@ -560,6 +580,11 @@ THOROUGH_L2 = ("ms_example_resilient", "ms_worst")
 L2_COUNTRIES = ("USA", "IND", "LUX", "ARG", "NGA", "JPN")
 
 
+def rare_paths():
+    with open(os.path.join(common.VERIF, "mc", "rare_paths.json")) as f:
+        return json.load(f)["runs"]
+
+
 def plan(tier, seed):
     isos = options.countries()
     jobs = []
@@ -578,8 +603,17 @@ def plan(tier, seed):
             for iso in sel:
                 for tag, o in options.single_deviations(base):
                     jobs.append((iso, pn, tag, o))
+        rare = rare_paths()
+        have = {(j[0], j[1], j[2]) for j in jobs}
+        for r in rare:
+            o = options.preset(r["preset"])
+            o.update(r["dev"])
+            tag = "&".join("%s=%s" % kv for kv in sorted(r["dev"].items())) or "default"
+            if (r["iso3"], r["preset"], tag) not in have:
+                jobs.append((r["iso3"], r["preset"], tag, o))
         bound = {"layer0": "%d presets x all %d countries + 2 world presets" % (len(QUICK_L0), len(isos)),
-                 "layer1": "every single deviation (%d) of %s on %s" % (len(options.single_deviations(options.preset(QUICK_L1[0]))), list(QUICK_L1), sel)}
+                 "layer1": "every single deviation (%d) of %s on %s" % (len(options.single_deviations(options.preset(QUICK_L1[0]))), list(QUICK_L1), sel),
+                 "rare_paths": "%d fixed runs that the thorough grid showed to take rare controller paths (mc/rare_paths.json)" % len(rare)}
     else:
         for pn in options.PRESETS:
             for iso in isos:
@@ -611,7 +645,7 @@ def plan(tier, seed):
 def tree_key(tier, seed):
     h = hashlib.sha256()
     roots = [os.path.join(common.REPO, d) for d in ("src", "data", "scenarios")]
-    for f in ("pipeline.py", "reflp.py", "supplies.py", "options.py", "common.py"):     # the engine itself
+    for f in ("pipeline.py", "reflp.py", "supplies.py", "options.py", "common.py", "rare_paths.json"):     # the engine itself
         p = os.path.join(common.VERIF, "mc", f)
         h.update(f.encode())
         with open(p, "rb") as fh:
